@@ -12,8 +12,10 @@ READER = dict(base="MtReader", trace="Trace_MtReader", inv=mtlib.READER_INV, pro
 def reader_cfgs(rows):
     out = []
     for (name, kind, workers, chunks, kw, mode) in rows:
+        kw = dict(kw)
+        extra = kw.pop("extra", None)   # data-level variations that do not change the concurrency model
         consts = mtlib.reader_consts(kind, workers, chunks, **kw)
-        cfg = dict(name=name, fam=kind + "_reader", consts=consts, mode=mode, **READER)
+        cfg = dict(name=name, fam=kind + "_reader", consts=consts, mode=mode, extra=extra, **READER)
         if kind == "lzip":
             cfg["silent"] = set(READER["silent"]) | {"CNew"}   # LZIPReaderMT::new spawns nothing
         out.append(cfg)
@@ -211,7 +213,7 @@ def run_plan(ctx, props, plan, quick, extra_random=None):
 
 def make_scn(c, sid, policy):
     if c["fam"].endswith("reader"):
-        return mtcommon.scn_from_consts(c["fam"], c["consts"], sid, policy)
+        return mtcommon.scn_from_consts(c["fam"], c["consts"], sid, policy, c.get("extra"))
     from checks import mtwriter
     return mtwriter.make_scn(c, sid, policy)
 
@@ -229,3 +231,20 @@ def _validate(c, rs):
     ok, reached, total, r = core.validate_trace(mod, cfg, tp, cwd=d, timeout=600)
     nxt = lines[reached] if (reached is not None and reached < len(lines)) else "?"
     return ok, reached, total, r, nxt
+
+
+def run_replay(ctx, props, path):
+    """Re-runs the scenario of a replay file and reports whether the violation reproduces."""
+    rep = json.load(open(path))
+    s = rep["replay"]["scenario"]
+    s["log"] = False
+    r = mtlib.run_scenarios([s])[0]
+    vs = [v for v in mtlib.judge(s, r) if v[0] in props]
+    for (pid, what, sig) in vs:
+        ctx.violation(what, sig, {"scenario": s, "source": "replay of " + os.path.basename(path)})
+    print(f"replay of {path}: outcome={r['outcome']} deadlock={r['deadlock']} leak={r['leak']} -> "
+          f"{'REPRODUCED' if vs else 'not reproduced'}")
+    ctx.cov.update({"evaluations": 1, "distinct_nontrivial": 2 if vs else 0, "rule": "replay of one recorded scenario",
+                    "states": 1, "transitions": 1, "traces_validated_against_impl": 0})
+    ctx.sample(s)
+    ctx.finish()
